@@ -141,7 +141,30 @@ fn find_match(name: &String, rule_tokens: &Vec<Rc<TokenInfo>>, tokinizer: &Tokin
     (total_rule_token, rule_token_index, start_token_index, target_token_index, fields)
 }
 
+#[cfg(smartcalc_verif)]
+fn verif_tokens(tokinizer: &Tokinizer) -> alloc::vec::Vec<crate::verif::VerifToken> {
+    let mut tokens = alloc::vec::Vec::new();
+    for token in tokinizer.token_infos.iter() {
+        if token.status.get() == TokenInfoStatus::Removed {
+            continue;
+        }
+
+        if let Some(token_type) = token.token_type.borrow().deref() {
+            let word = match token_type {
+                TokenType::Text(text) => text.to_lowercase(),
+                TokenType::Operator(operator) => operator.to_string(),
+                _ => String::new()
+            };
+            tokens.push((token_type.type_name(), word));
+        }
+    }
+    tokens
+}
+
 pub fn rule_tokinizer(tokinizer: &mut Tokinizer) {    
+    #[cfg(smartcalc_verif)]
+    crate::verif::push(crate::verif::RuleEvent::Start(verif_tokens(tokinizer)));
+
     if let Some(language) = tokinizer.config.rule.get(&tokinizer.language) {
 
         let mut execute_rules = true;
@@ -188,9 +211,14 @@ pub fn rule_tokinizer(tokinizer: &mut Tokinizer) {
                                             status: Cell::new(TokenInfoStatus::Active)
                                         }));
 
+                                        #[cfg(smartcalc_verif)]
+                                        crate::verif::push(crate::verif::RuleEvent::Apply(function_name.to_string(), verif_tokens(tokinizer)));
+
                                         /* Rules are tried in order again on the rewritten line */
                                         continue 'rounds;
                                     },
+                                    #[cfg(smartcalc_verif)]
+                                    Err(_) if { crate::verif::push(crate::verif::RuleEvent::Refuse(function_name.to_string())); false } => (),
                                     Err(error) => log::info!("Rule execution error, {}", error)
                                 }
                             }
@@ -237,9 +265,15 @@ pub fn rule_tokinizer(tokinizer: &mut Tokinizer) {
                                         status: Cell::new(TokenInfoStatus::Active)
                                     }));
 
+                                    #[cfg(smartcalc_verif)]
+                                    crate::verif::push(crate::verif::RuleEvent::Apply(rule.name(), verif_tokens(tokinizer)));
+
                                     /* Rules are tried in order again on the rewritten line */
                                     continue 'rounds;
                                 }
+
+                                #[cfg(smartcalc_verif)]
+                                crate::verif::push(crate::verif::RuleEvent::Refuse(rule.name()));
                             }
                         }
                     }
@@ -247,6 +281,9 @@ pub fn rule_tokinizer(tokinizer: &mut Tokinizer) {
             }
         }
     }
+
+    #[cfg(smartcalc_verif)]
+    crate::verif::push(crate::verif::RuleEvent::Done);
 
     if cfg!(feature="debug-rules") {
         log::debug!("Updated token_infos: {:?}", tokinizer.token_infos);
